@@ -541,16 +541,43 @@ class Component:
 
     def __init__(self, name, harness, srcs, pmodel_args, gen, nontrivial, rule, corpus=None,
                  cpu=None, extra=(), ldflags=(), env=None, sanitize=True, opt=None, classify=None,
-                 impl_cmd_extra=(), ignore_l2=False, monitor_args=None, fresh_process=False):
+                 impl_cmd_extra=(), ignore_l2=False, monitor_args=None, fresh_process=False,
+                 bb_ok=False, bb_srcs=(), bb_fresh=False):
         self.__dict__.update(locals())
 
 
 def check_component(ctx, comp, budget_mult=1, only_l1_boundary=False, cases=None):
     """Build harness, run corpus + generated cases through impl and model, compare.
     Returns list of failures: dict(kind, case, index, detail, crash)."""
-    exe, err = build_harness(ctx, comp.name, comp.harness, comp.srcs, cpu=comp.cpu, extra=comp.extra,
-                             ldflags=comp.ldflags, sanitize=comp.sanitize, opt=comp.opt)
+    if getattr(comp, "_bb", False):      # black-box mode was chosen earlier in this run
+        exe, err = build_harness(ctx, comp.name, comp.harness, list(comp.srcs) + list(getattr(comp, "bb_srcs", ())),
+                                 cpu=comp.cpu, extra=list(comp.extra) + ["-DHC_BLACKBOX"], ldflags=comp.ldflags,
+                                 sanitize=comp.sanitize, opt=comp.opt)
+    else:
+        exe, err = build_harness(ctx, comp.name, comp.harness, comp.srcs, cpu=comp.cpu, extra=comp.extra,
+                                 ldflags=comp.ldflags, sanitize=comp.sanitize, opt=comp.opt)
     cstat = ctx.cov["components"].setdefault(comp.name, {})
+    if exe is None and getattr(comp, "bb_ok", False) and not getattr(comp, "_bb", False):
+        # The harness reads private names of the library (statics, members of private structs) to print the L2 part and
+        # they no longer exist under these names.  Black-box mode: the same harness compiled with -DHC_BLACKBOX uses the
+        # public interface only and prints the L1 part only; state that the white-box build reset between cases is reset
+        # by giving every case its own process.  The tie is then the observable correspondence alone (with the 10x budget).
+        exe2, err2 = build_harness(ctx, comp.name, comp.harness, list(comp.srcs) + list(getattr(comp, "bb_srcs", ())),
+                                   cpu=comp.cpu, extra=list(comp.extra) + ["-DHC_BLACKBOX"], ldflags=comp.ldflags,
+                                   sanitize=comp.sanitize, opt=comp.opt)
+        if exe2 is not None:
+            exe = exe2
+            comp._bb = True
+            comp.ignore_l2 = True
+            if getattr(comp, "bb_fresh", False):
+                comp.fresh_process = True
+            first = [l for l in err.split("\n") if "error" in l][:2]
+            msg = ("BLACKBOX %s: the white-box harness does not compile against this tree (%s); observable (L1) correspondence only, "
+                   "one process per case" % (comp.name, " / ".join(x.strip()[:160] for x in first)))
+            if msg not in ctx.soft_msgs:
+                ctx.soft_msgs.append(msg)
+        else:
+            err = err + "\n-- black-box build also fails --\n" + err2
     if exe is None:
         # the current tree does not compile with our harness: correspondence is broken
         return [{"kind": "BUILD", "case": [], "index": -1, "detail": {"stderr": err}, "crash": None}]
